@@ -83,7 +83,9 @@ def chain_closure(prog, rep, rule, cb, idx_ok, wrapper_ok):
     sname = startv[1]
     r.check(m.env.get(sname) == ("int", 0), "start-init", "the cut index starts at 0", D(m.env.get(sname)) if m.env.get(sname) else "?",
             "the captured cut index starts at %s, not 0" % (D(m.env.get(sname)) if m.env.get(sname) else "?"))
-    parent_base = m.env.get(base[1]) if base[0] == "upvar" else None
+    from ..engines.schemas import subst
+    mapping = {("upvar", n): v for n, v in m.env.items() if not n.endswith("#state")}
+    parent_base = prog.simp(subst(base, mapping), m.parent) if m.parent is not None else None
     n_range = n_tail = 0
     for rp, ix in pieces:
         site = site_of_block(body, rp.path[-2]) if len(rp.path) > 1 else body.span
